@@ -96,7 +96,7 @@ NoPats == {}
 F_all == <<"*">>
 F_a == <<"f", "a", ".", "o">>
 F_b == <<"*", "b", ".", "o">>
-QuickPats == {<<P_exact>>, <<P_pre4>>, <<P_pre3>>, <<P_all>>, <<P_suf>>}
+QuickPats == {<<P_exact>>, <<P_pre4>>, <<P_pre3>>, <<P_all>>}
 QuickVariants == {[file |-> F_all, keep |-> FALSE], [file |-> F_all, keep |-> TRUE], [file |-> F_a, keep |-> FALSE]}
 FullPats == {<<P_exact>>, <<P_pre4>>, <<P_pre3>>, <<P_pre2>>, <<P_all>>, <<P_suf>>, <<P_cls>>, <<P_q>>,
              <<P_exact, P_suf>>, <<P_pre2, P_q>>}
